@@ -1271,9 +1271,18 @@ class PyCdlib:
 
         old = self._cdfp.tell()
         self._seek_to_extent(eltorito_boot_catalog_extent)
+        # The boot catalog is one logical block long.  A catalog that fills its
+        # block completely has no terminating entry, so supply one instead of
+        # reading the beginning of whatever follows the catalog.
+        num_left = self.logical_block_size // 32
         data = self._cdfp.read(32)
+        num_left -= 1
         while not self.eltorito_boot_catalog.parse(data):
-            data = self._cdfp.read(32)
+            if num_left > 0:
+                data = self._cdfp.read(32)
+                num_left -= 1
+            else:
+                data = b'\x00' * 32
         self._cdfp.seek(old)
 
     def _udf_assign_extents(self, udf_files, current_extent):
